@@ -17,7 +17,7 @@ def gen(rng: random.Random, tier: str):
         rng.shuffle(rows)
         yield {"rows": rows, "damp_user": rng.choice([0, 0, 1, 2.5, 5]), "damp_item": rng.choice([0, 0, 1, 2.5, 10]),
                "hist": [[rng.choice([IB + i for i in range(ni)] + [7777]), float(rng.randint(1, 5))] for _ in range(rng.randint(0, 3))],
-               "cutoff": rng.randint(0, 100), "dt_times": rng.random() < 0.6, "dt_unit": rng.choice(["ns", "us", "ms", "s", "ns-utc"]), "const": rng.random() < 0.1}
+               "cutoff": rng.randint(0, 100), "dt_times": rng.random() < 0.6, "dt_unit": rng.choice(["ns", "us", "ms", "s", "ns-utc"]), "const": rng.random() < 0.1, "late_items": rng.random() < 0.35}
 
 def _close(a, b, tol): return abs(a - b) <= tol * max(1.0, abs(a), abs(b))
 
@@ -29,7 +29,14 @@ def run(case: dict, lean: Lean) -> Outcome:
     from lenskit.basic.popularity import PopScorer, TimeBoundedPopScore
     rows = [[u, i, (3.0 if case["const"] else r), t] for u, i, r, t in case["rows"]]
     df = pd.DataFrame(rows, columns=["user_id", "item_id", "rating", "timestamp"])
-    ds = from_interactions_df(df)
+    if case.get("late_items"):
+        # the item vocabulary need not be in identifier order: the largest identifiers are registered first, the others arrive with the records
+        from lenskit.data import DatasetBuilder
+        ids_desc = sorted({int(i) for _, i, _, _ in rows}, reverse=True)
+        dsb = DatasetBuilder(); dsb.add_entities("item", np.array(ids_desc[: max(1, len(ids_desc) // 2)], dtype=np.int64))
+        dsb.add_interactions("rating", df, entities=["user", "item"], missing="insert", allow_repeats=False, default=True)
+        ds = dsb.build()
+    else: ds = from_interactions_df(df)
     du, di = case["damp_user"], case["damp_item"]
     uid = {int(u): k for k, u in enumerate(ds.users.ids())}; iid = {int(i): k for k, i in enumerate(ds.items.ids())}
     failed = []; corr = True
@@ -121,6 +128,7 @@ def run(case: dict, lean: Lean) -> Outcome:
     if any(h[0] == 7777 for h in case["hist"]): classes.append("history with unknown item")
     if case["dt_times"]: classes.append("date-time timestamps"); classes.append("date-time unit " + case.get("dt_unit", "ns"))
     if len(set(counts.values())) < len(counts): classes.append("tied counts")
+    if case.get("late_items"): classes.append("item vocabulary not in identifier order")
     return Outcome(corr, spec and corr, tuple(classes), {"failed": failed[:12], "offsets": {"impl_items": [float(x) for x in bm.item_biases], "def_items": res["itemsDef"]}}, key)
 
 def shrink(case: dict):
